@@ -5,7 +5,8 @@ import RuxModel.Model.Clean
     `clean`  : path.Clean / utf8.ValidString / path.Base / filepath.Split against the Go functions
     `static` : the Static* handlers end to end against a sandbox tree
 -/
-namespace Rux.Drv
+namespace Rux.Drv.StaticE
+open Rux.Drv
 open Rux.Clean
 
 /-! ### engine `clean` -/
@@ -119,4 +120,8 @@ def staticStep (s : StaticState) : List String → StaticState × String
 
 def staticEngine : Engine := { σ := StaticState, init := {}, step := staticStep }
 
+end Rux.Drv.StaticE
+
+namespace Rux.Drv
+export StaticE (cleanEngine staticEngine)
 end Rux.Drv
